@@ -1,0 +1,147 @@
+//go:build verif
+
+// Verification hook (build tag verif) for C08: VerifSelectPipeline runs the store-side part of a select on one shard like
+// VerifShard.Select of verif_export_c09.go (same parse / rewrite / options / CreateCursor / planner-built reader), but
+// executes the ChunkReader and a collecting sink inside executor.PipelineExecutor, as a statement does in production:
+// errors and panics of the cursors take the executor's own route (recover, Crash, error of Execute). The fault stage of
+// the C08 check injects storage read errors underneath and needs exactly that route. Thin wrapper, no behaviour of its own.
+package engine
+
+import (
+	"context"
+	"fmt"
+	"strings"
+	"sync"
+
+	"github.com/openGemini/openGemini/engine/executor"
+	"github.com/openGemini/openGemini/engine/hybridqp"
+	"github.com/openGemini/openGemini/lib/util/lifted/influx/influxql"
+	"github.com/openGemini/openGemini/lib/util/lifted/influx/query"
+)
+
+type verifC08Sink struct {
+	executor.BaseProcessor
+	in   *executor.ChunkPort
+	refs []influxql.VarRef
+	mu   sync.Mutex
+	rows []VerifAggRow
+}
+
+func (s *verifC08Sink) Name() string                      { return "verifC08Sink" }
+func (s *verifC08Sink) Explain() []executor.ValuePair     { return nil }
+func (s *verifC08Sink) Close()                            {}
+func (s *verifC08Sink) Release() error                    { return nil }
+func (s *verifC08Sink) GetOutputs() executor.Ports        { return executor.Ports{} }
+func (s *verifC08Sink) GetInputs() executor.Ports         { return executor.Ports{s.in} }
+func (s *verifC08Sink) GetOutputNumber(executor.Port) int { return 0 }
+func (s *verifC08Sink) GetInputNumber(executor.Port) int  { return 0 }
+func (s *verifC08Sink) Work(ctx context.Context) error {
+	for {
+		select {
+		case ck, ok := <-s.in.State:
+			if !ok {
+				return nil
+			}
+			rows := verifChunkRows(ck, s.refs)
+			s.mu.Lock()
+			s.rows = append(s.rows, rows...)
+			s.mu.Unlock()
+		case <-ctx.Done():
+			return nil
+		}
+	}
+}
+
+// VerifSelectPipeline returns the rows the reader emitted, whether the executor recorded a crash (recovered panic of a
+// processor), and the error of PipelineExecutor.Execute.
+func (v *VerifShard) VerifSelectPipeline(sql string, fields map[string]influxql.DataType, dims []string) ([]VerifAggRow, bool, error) {
+	p := influxql.NewParser(strings.NewReader(sql))
+	defer p.Release()
+	st, err := p.ParseStatement()
+	if err != nil {
+		return nil, false, err
+	}
+	stmt, ok := st.(*influxql.SelectStatement)
+	if !ok {
+		return nil, false, fmt.Errorf("not a select statement")
+	}
+	mapper := &verifMapper{fields: fields, dims: dims}
+	if stmt, err = stmt.RewriteFields(mapper, true, false); err != nil {
+		return nil, false, err
+	}
+	stmt.OmitTime = true
+	valuer := &influxql.NowValuer{Location: stmt.Location}
+	cond, tr, err := influxql.ConditionExpr(stmt.Condition, valuer)
+	if err != nil {
+		return nil, false, err
+	}
+	stmt.Condition = cond
+	opt, err := query.NewProcessorOptionsStmt(stmt, query.SelectOptions{ChunkSize: 1024})
+	if err != nil {
+		return nil, false, err
+	}
+	if err = hybridqp.VerifyHintStmt(stmt, &opt); err != nil {
+		return nil, false, err
+	}
+	mst, ok := stmt.Sources[0].(*influxql.Measurement)
+	if !ok {
+		return nil, false, fmt.Errorf("source is not a measurement")
+	}
+	opt.Name = mst.Name
+	opt.Sources = stmt.Sources
+	opt.StartTime = tr.MinTimeNano()
+	opt.EndTime = tr.MaxTimeNano()
+	qs := executor.NewQuerySchemaWithSources(stmt.Fields, stmt.Sources, stmt.ColumnNames(), &opt, nil)
+
+	ctx := context.Background()
+	idx, err := v.sh.CreateCursor(ctx, qs)
+	if err != nil || idx == nil {
+		return nil, false, err
+	}
+	defer idx.Unref()
+	var keyCursors []interface{}
+	for _, cur := range idx.GetCursors() {
+		keyCursors = append(keyCursors, cur)
+	}
+	builder := executor.NewLogicalPlanBuilderImpl(qs)
+	seriesPlan, err := builder.CreateSeriesPlan()
+	if err != nil {
+		return nil, false, err
+	}
+	mstPlan, err := builder.CreateMeasurementPlan(seriesPlan)
+	if err != nil {
+		return nil, false, err
+	}
+	var lr *executor.LogicalReader
+	for n := mstPlan; n != nil; {
+		if r, ok := n.(*executor.LogicalReader); ok {
+			lr = r
+			break
+		}
+		if len(n.Children()) == 0 {
+			break
+		}
+		n = n.Children()[0]
+	}
+	if lr == nil {
+		return nil, false, fmt.Errorf("no LogicalReader in the measurement plan")
+	}
+	lr.SetCursor(keyCursors)
+	proc, err := (&ChunkReader{}).Create(lr, &opt)
+	if err != nil {
+		return nil, false, err
+	}
+	reader := proc.(*ChunkReader)
+	var refs []influxql.VarRef
+	for _, op := range lr.RowExprOptions() {
+		refs = append(refs, op.Ref)
+	}
+	sink := &verifC08Sink{in: executor.NewChunkPort(lr.RowDataType()), refs: refs}
+	reader.GetOutputs()[0].Connect(sink.in)
+	exec := executor.NewPipelineExecutor(executor.Processors{reader, sink})
+	err = exec.Execute(ctx)
+	sink.mu.Lock()
+	rows := sink.rows
+	sink.mu.Unlock()
+	return rows, exec.Crashed(), err
+}
